@@ -17,10 +17,21 @@ pub fn gen(seed: u64, cases: usize, flavour: &str, path: &str) {
             let mag: f64 = if stress == 2 { *g.rng.pick(&[1099511627776.0, 1.0 / 1073741824.0, 1048576.0]) } else { 1.0 };
             let (d0, dstep): (i64, i64) = if stress == 3 { *g.rng.pick(&[(1_700_000_000i64, 86_400i64), (1_700_000_000_000, 86_400_000), (1_700_000_000_000, 250)]) } else { (100, 1) };
             let n = if stress == 1 { 300 + g.rng.below(1200) as usize } else if g.rng.chance(1, 40) { 1 } else { 2 + g.rng.below(if ddf { 40 } else { 14 }) as usize };
-            let grid = g.rng.chance(1, 3);
+            let grid = g.rng.chance(1, 3) && !(stress == 1);
             let flows = !ddf && g.rng.chance(1, 2);
             let infl = !ddf && g.rng.chance(1, 4);
-            let shape = g.rng.below(6); // 0 random, 1 monotone up, 2 monotone down, 3 V, 4 ties/plateaus, 5 two drawdowns with recovery
+            let shape = if stress == 1 && g.rng.chance(1, 3) { 6 } else { g.rng.below(6) }; // 0 random, 1 monotone up, 2 monotone down, 3 V, 4 ties/plateaus, 5 two drawdowns with recovery, 6 explosive growth (the compounded index passes 1e154) then drawdowns of different depth
+            // a deposit that is later withdrawn in full: the cumulative flow ends where it began, in between it does not
+            let cancel: Option<(usize, usize, f64)> = if n >= 4 && g.rng.chance(1, 6) {
+                let i = 1 + g.rng.below((n - 2) as u64) as usize;
+                let j = i + 1 + g.rng.below((n - 1 - i) as u64) as usize;
+                Some((i, j, *g.rng.pick(&[50.0, 500.0, 64.0])))
+            } else {
+                None
+            };
+            if cancel.is_some() {
+                g.stats.bump("cash_flows_that_cancel_exactly");
+            }
             let mut v = 100.0 + g.rng.below(1000) as f64;
             let mut ncf = 0.0;
             let mut line = format!("CALC {n}");
@@ -32,10 +43,21 @@ pub fn gen(seed: u64, cases: usize, flavour: &str, path: &str) {
                         3 => if i < n / 2 { 0.9 } else { 1.15 },
                         4 => if g.rng.chance(1, 2) { 1.0 } else { 0.7 + 0.6 * g.rng.unit() },
                         5 => match (4 * i) / n { 0 => 0.93, 1 => 1.12, 2 => 0.85, _ => 1.2 },
+                        6 => if i <= 160 { 11.0 } else { *[0.9, 2.0, 0.5, 1.2, 0.7, 3.0].get((i - 161) % 6).unwrap() },
                         _ => 0.7 + 0.6 * g.rng.unit(),
                     };
                     v = if grid { (v + (g.rng.below(41) as f64 - 20.0) * 4.0).max(if g.rng.chance(1, 30) { 0.0 } else { 4.0 }) } else { v * f };
-                    if flows && g.rng.chance(1, 3) {
+                    if let Some((ci, cj, amt)) = cancel {
+                        if i == ci {
+                            ncf += amt;
+                            v += amt;
+                        }
+                        if i == cj {
+                            ncf -= amt;
+                            v = (v - amt).max(1.0);
+                        }
+                    }
+                    if flows && cancel.is_none() && g.rng.chance(1, 3) {
                         let fl = if grid { (g.rng.below(21) as f64 - 10.0) * 8.0 } else { (g.rng.unit() - 0.5) * 50.0 };
                         ncf += fl;
                         v = (v + fl).max(1.0);
